@@ -221,8 +221,9 @@ class EVPN(NLRI):
             # ld_value_hex = ld_value.to_bytes(3, byteorder='big')
             ld_value_hex = hex(ld_value).split('0x')[1]
             len_ld_value = len(ld_value_hex)
-            if len_ld_value % 2 != 0:
-                ld_value_hex = '0' + ld_value_hex
+            if len_ld_value < 6:
+                # the local discriminator is a 3-octet field
+                ld_value_hex = '0' * (6 - len_ld_value) + ld_value_hex
             ld_value_hex = binascii.a2b_hex(ld_value_hex)
             esi_data_hex = b'\x03' + sys_mac_hex + ld_value_hex
 
